@@ -361,12 +361,140 @@ def r_rdlen(prog, R):
         r.viol("short-read-skips-remainder", f.name, f.loc(f.ln), "unparsed RDATA bytes are not skipped: the next record would be parsed from the middle of this one")
 
 
+EXISTING_STORAGE = ("ares_dns_rr_data_ptr", "ares_dns_rr_data_ptr_const", "ares_array_at", "ares_array_last", "ares_array_first")
+import own as _own
+
+
+def _is_release(c, txt):
+    cal = c.get("callee") or ""
+    if not (cal in _own.BASE_FREE or cal.endswith(("_destroy", "_free", "_free_cb", "_destroy_cb"))):
+        return False
+    return any(a is not None and render(strip(a)) == txt for a in c.get("args", []))
+
+
+def _reach_store_unreleased(f, sb, si, D):
+    """a path from the entry to the store (sb, si) on which D was neither released nor known to be NULL: block trail or None"""
+    def edge_null(blk, succ_idx):
+        br = f.branch(blk)
+        if not br:
+            return False
+        for pol in (True, False):
+            tgt = br[1] if pol else br[2]
+            if tgt != blk.succs[succ_idx]:
+                continue
+            for c3, p3 in atoms(br[0], pol):
+                op, l3, r3 = norm_cmp(c3, p3)
+                if render(strip(l3)) == D and ((op in ("==",) and r3 is not None and is_null(r3)) or (op == "false" and r3 is None)):
+                    return True
+        return False
+    seen = set()
+    work = [(f.entry, False, [f.entry])]
+    while work:
+        bid, ok, trail = work.pop()
+        blk = f.blocks[bid]
+        for j, e2 in enumerate(blk.els):
+            if bid == sb.id and j == si:
+                if not ok:
+                    return trail
+                break
+            if e2["k"] == "call" and _is_release(e2["e"], D):
+                ok = True
+            elif e2["k"] == "asg" and render(strip(e2["e"]["l"])) == D:
+                ok = is_null(e2["e"].get("r")) if e2["e"]["op"] == "=" else False
+        else:
+            for n2, s2 in enumerate(blk.succs):
+                if s2 is None:
+                    continue
+                ok2 = ok or edge_null(blk, n2)
+                if (s2, ok2) not in seen:
+                    seen.add((s2, ok2))
+                    work.append((s2, ok2, trail + [s2]))
+    return None
+
+
+def r_replace(prog, R):
+    r = R.rule("R-C02-REPLACE", "a record setter that stores an owned pointer into storage that already exists (a field of a stored record, an option slot found by its code) "
+               "releases the value it replaces: before the store, or afterwards through a saved copy", floor=6, analysis="must-pass release (before, or of the saved old value after) per overwrite")
+    n = 0
+    for f in sorted(prog.funcs.values(), key=lambda x: x.key):
+        if not f.file.startswith("src/lib/record/"):
+            continue
+        ex = set()
+        for b, i, el in f.elements():
+            pairs = []
+            if el["k"] == "asg" and el["e"]["op"] == "=" and is_var(strip(el["e"]["l"])):
+                pairs.append((strip(el["e"]["l"])["n"], el["e"].get("r")))
+            if el["k"] == "decl":
+                pairs += [(v["n"], v["init"]) for v in el["vars"] if v.get("init") is not None]
+            for nm, rhs in pairs:
+                r2 = strip(rhs)
+                if r2 is not None and r2.get("k") == "call":
+                    full = f.call_by_id(r2["id"]) if r2.get("ref") else None
+                    cn = full[2] if full else r2
+                    if cn.get("callee") in EXISTING_STORAGE:
+                        ex.add(nm)
+        if not ex:
+            continue
+        mf = None
+        for b, i, el in f.elements():
+            if el["k"] != "asg" or el["e"]["op"] != "=":
+                continue
+            l = strip(el["e"]["l"])
+            rv = root_var(l)
+            if rv is None or rv["n"] not in ex or is_var(l) or not (l.get("ty") or "").endswith("*"):
+                continue
+            if is_null(el["e"].get("r")):
+                continue
+            D = render(l)
+            rhs = strip(el["e"].get("r"))
+            n += 1
+            k = "fn=%s replaces %s" % (f.name, D)
+            if mf is None:
+                mf = MustFacts(f, track_calls=False)
+            # restore of a saved value is not a replacement
+            saved = set()
+            for b2, i2, e2 in f.elements():
+                if e2["k"] == "asg" and e2["e"]["op"] == "=" and is_var(strip(e2["e"]["l"])) and render(strip(e2["e"].get("r"))) == D:
+                    saved.add(strip(e2["e"]["l"])["n"])
+                if e2["k"] == "decl":
+                    for v in e2["vars"]:
+                        if v.get("init") is not None and render(strip(v["init"])) == D:
+                            saved.add(v["n"])
+            if is_var(rhs) and rhs["n"] in saved:
+                r.ok(k + " (restores the saved value)", f.loc(el), nontrivial=False)
+                continue
+            # (b) destination known empty
+            if any(norm_cmp(c3, p3)[0] in ("==", "false") and render(strip(norm_cmp(c3, p3)[1])) == D and (norm_cmp(c3, p3)[2] is None or is_null(norm_cmp(c3, p3)[2])) for c3, p3 in mf.cond_facts_at(b, i)):
+                r.ok(k + " (empty before)", f.loc(el))
+                continue
+            # (a) on every path to the store the destination was released or is known to be empty (`if (*p) free(*p);`)
+            t = _reach_store_unreleased(f, b, i, D)
+            if t is None:
+                r.ok(k + " (released before)", f.loc(el))
+                continue
+            # (c) saved before, and after the store every path releases the saved value or restores it
+            okc = False
+            for sv in saved:
+                def done(e2, sv=sv):
+                    if e2["k"] == "call" and _is_release(e2["e"], sv):
+                        return True
+                    return e2["k"] == "asg" and e2["e"]["op"] == "=" and render(strip(e2["e"]["l"])) == D and is_var(strip(e2["e"].get("r")), sv)
+                if can_reach_exit_avoiding(f, b, i, done) is None:
+                    okc = True
+            if okc:
+                r.ok(k + " (old value saved and released/restored afterwards)", f.loc(el))
+            else:
+                r.viol(k, f.name, f.loc(el), "%s is overwritten while it may still hold the previous value, which is neither released before the store nor saved and released afterwards: setting the same field / option code twice (a message that repeats an option) leaks the first value" % D, trail=trail_lines(f, t))
+    r.require(n >= 6, "fewer than 6 owning stores into existing record storage found")
+
+
 def run(prog, R, tier):
     R.assume("ares_buf_fetch/tag_fetch/peek return a view of exactly the reported length (the three functions are part of R-C02-BUFREAD's file)")
     r_bufread(prog, R)
     r_opaque(prog, R)
     r_ptr(prog, R)
     r_rdlen(prog, R)
+    r_replace(prog, R)
     files = PARSER_FILES | {f.file for f in prog.funcs.values() if f.file.startswith("src/lib/legacy/")}
     ownrules.own_rule(prog, R, "R-C02-OWN", files, floor=30, include_contract=True)
     C15.r_dst(prog, R, files, rid="R-C02-DST", floor=5)
